@@ -11,7 +11,7 @@ CLAIMS = {
              text="totality monitor over the union of all decoder lattices plus the complete space of short byte strings; panics, stalls and allocation above 4 KiB per decode are violations", ref="3 C01", note=E1_NOTE + "; the global-allocator meter counts bytes requested per decode on the calling thread"),
  "C02": dict(cat="exploration", tech="exhaustive enumeration of 32 DF codes x buffer lengths 0..=32 x contexts x garbage tails and of every dispatch leaf (bit-walk, field sweeps) on the real decoder vs reference acceptance predicate; exact-vs-extended differential",
              text="acceptance set, length discipline and tail-independence decided on every format code, every length and every dispatch leaf under a context alphabet; payload bits beyond the alphabet are not enumerated", ref="3 C02", note=E1_NOTE),
- "C03": dict(cat="model_checking", tech="explicit-state enumeration of the checksum automaton's complete transition relation (2^24 remainders x 256 bytes, thorough; 2^20 three-byte prefixes, quick) on the real function via hook vs bit-serial division; exhaustive error-pattern enumeration (weight<=5, bursts<=24); Frame.crc on every dispatch leaf",
+ "C03": dict(cat="model_checking", tech="explicit-state enumeration of the checksum automaton's complete transition relation (2^24 remainders x 256 bytes, thorough; 2^20 three-byte prefixes, quick) on the real function via hook vs bit-serial division; exhaustive error-pattern enumeration (weight<=5, bursts<=24); Frame.crc on every dispatch leaf, also through fragmenting / interrupting readers and readers positioned at an offset",
              text="complete transition relation of the table-driven remainder automaton => equality with polynomial division for all frames by induction on length; public-API checksum on every seek pattern; exhaustive low-weight/burst error patterns", ref="3 C03",
              note="trusted: bit-serial reference division; the hook re-exposes the private function unchanged; induction over length assumes the loop is a fold of one step (probed at n=7 and n=14)"),
  "C07": dict(cat="exploration", tech="exhaustive enumeration of the velocity payload lattice (all field values, joint (dir,vel,dir,vel) sweep, all 2^11 vertical-rate codes) on the real decoder and calculate() vs reference arithmetic",
@@ -36,8 +36,8 @@ CLAIMS = {
 E2_NOTE = ("trusted: stateright 0.31 (bounded DFS with the depth in the state key; cross-checked against BFS counts on every C12 run); the harness's clock_gettime interposition (self-tested each run); the reference tracker; exact haversine; "
            "depth-bounded (no fixpoint) plus periodic (lasso) histories: every word of period <= 2-3 repeated to 1200-3000 events; oracles are evaluated on every generated state inside next_state (stateright itself skips the deepest level)")
 for _pid, _ref, _txt in [
-  ("C12", "3 C12", "all histories up to depth 4 (quick) / 5 (thorough) over a 37-letter frame alphabet (2-3 addresses x payload classes, DF18 with foreign PI, eight non-ES formats): key set, Added, message counts, non-ES no-ops, record isolation checked on every reachable state"),
-  ("C13", "3 C13", "all histories up to depth 4-6 (7 quick / 9 thorough on a single-aircraft sub-alphabet) of even/odd reports from a flight, range-boundary, jump-boundary (polar NL=1), garbage, second-aircraft and receiver-move letters, several receivers/ranges, 1 s and 100 s per event: published position, clearing, distance"),
+  ("C12", "3 C12", "all histories up to depth 4 (quick) / 5 (thorough) over a 37-letter frame alphabet (2-3 addresses x payload classes, DF18 with foreign PI, eight non-ES formats): key set, Added, message counts, non-ES no-ops, record isolation checked on every reachable state; an expiry model (accounting letters x prune, one second per event) for 'the tracked set shrinks only through expiry'"),
+  ("C13", "3 C13", "all histories up to depth 4-6 (7 quick / 9 thorough on a single-aircraft sub-alphabet) of even/odd reports from a flight, range-boundary, jump-boundary (polar NL=1), garbage, second-aircraft and receiver-move letters, several receivers/ranges, 1 s and 100 s per event, polar models on the +-90 deg zone latitudes: published position, clearing, distance, the pairing itself against the independent reference decoder"),
   ("C14", "3 C14", "same state spaces plus identification/velocity letters: latest-wins attributes, details/all_position/Display views, distance-iff-position, track = superseded publications in order"),
   ("C15", "3 C15", "all interleavings up to depth 6 (quick) / 9 (thorough) of frames (identification, velocity, positions, unhandled types, DF18, non-ES), waits {1 ns, 0.4T, 0.6T, T-1ns, T} and prune(T), T in {0, 1, 10}: exact expiry set, untouched survivors, fresh record on re-appearance"),
 ]:
@@ -58,13 +58,13 @@ E4_NOTE = ("trusted: the pty/TCP driver (causal synchronisation on /proc io coun
            "the helper `vh feed2table` (real decoder + real tracker) as the table oracle; every violating script is replayed twice before it is reported, disagreeing replays are machinery errors")
 CLAIMS["C16"] = dict(cat="fault_enumeration", engine="E4-apps",
     tech="exhaustive enumeration of feed schedules on the real radar and 1090 binaries: every cut position of a 3-line feed (<=1 cut quick, <=2 thorough) with a timeout gap, a malformed-line alphabet at every feed position in two timings, every disconnect point with retry on/off",
-    text="all segmentations within the bound, all alphabet lines at all positions, all disconnect points; oracle = echoed payload sequence (1090) / per-aircraft message counts vs the tracker library (radar)", ref="3 C16", note=E4_NOTE)
+    text="all segmentations within the bound, all alphabet lines at all positions, all disconnect points; oracle = echoed payload sequence followed by the library's rendering of each frame (1090) / per-aircraft message counts vs the tracker library (radar)", ref="3 C16", note=E4_NOTE)
 CLAIMS["C17"] = dict(cat="model_checking", engine="E4-apps",
     tech="stateless bounded-depth model checking of the real radar binary under a pty: all event sequences up to depth 1-4 over the key/mouse/resize/traffic alphabet x delivery mode x terminal sizes x tracked-set contexts x option sets; CLI value alphabet",
-    text="every sequence within the bound executed on the real process; oracle = alive until quit, exit 0, no panic text, termios restored, mouse reporting off, cursor shown; invalid CLI values -> usage error", ref="3 C17", note=E4_NOTE)
+    text="every sequence within the bound executed on the real process; oracle = alive until quit, exit 0, no panic text, termios restored, mouse reporting off, cursor shown; a quit request is honoured even while the feed is silent; invalid CLI values -> usage error", ref="3 C17", note=E4_NOTE)
 CLAIMS["C18"] = dict(cat="model_checking", engine="E4-apps",
     tech="stateless bounded-depth model checking of the real radar binary with screen reconstruction: all view-control sequences up to depth 2 (quick) / 3 (thorough) over feeds with aircraft and locations in all four quadrants, two receivers (one next to the prime meridian), traffic arriving after the view controls",
-    text="Airplanes tab cells and counters vs the real tracker library fed with the same lines; map geometry (order, 2:1 ratio); view sequences leave the data tab cell-for-cell unchanged and reset restores the initial map", ref="3 C18", note=E4_NOTE)
+    text="Airplanes tab cells and counters vs the real tracker library fed with the same lines (feeds of 1, 2, 3 and 21 aircraft; row capacity, columns and number of decimals read off the screen); map geometry (order, 2:1 ratio); view sequences leave the data tab cell-for-cell unchanged and reset restores the initial map", ref="3 C18", note=E4_NOTE)
 
 NOT_YET = {
 }
